@@ -107,6 +107,19 @@ CHECKS = {
               "the covered shapes are covered; larger shapes are outside the claim. Not an unbounded proof."),
         note="Trusted: z3 4.8.12, go/ssa, the /verif symbolic executor; ids assumed >= 0; Attach_benchmark_core is not covered.",
         design="DESIGN.md section 3, C10"),
+    "C11": dict(
+        category="proof",
+        text=("The real Machine.Jsoner/Dejsoner, Bondmachine.Jsoner/Dejsoner, EventuallyCreateInstruction and every shared object's "
+              "Instantiate/String are executed symbolically on machines whose scalar fields, strings, program words, bond triples, links, "
+              "processor indices and shared-object parameters are solver variables (list lengths and opcode names concrete per "
+              "configuration: all 94 static opcodes, 8 dynamically created ones, all 9 shared-object kinds). z3 decides that the reloaded "
+              "machine is structurally equal to the original - the equality term is generated from the Go struct types, so a field added "
+              "later is compared automatically and a Jsoner/Dejsoner that forgets it fails - that re-saving gives the same JSON structure, "
+              "and that no opcode or shared object is nil after loading. encoding/json itself is taken as the identity on the *_json "
+              "structs; 'simulates identically / regenerates identical Verilog' follow from structural equality and are not re-checked."),
+        note=("Trusted: z3, go/ssa, /verif/symgo; excluded fields CpID, Tag, SharedHDLOps (generation scratch); wide decimal parameters are "
+              "injective tokens; front-end produced machines and FloPoCo/linear-quantiser opcodes are outside."),
+        design="DESIGN.md section 3, C11"),
     "C13": dict(
         category="proof",
         text=("Per generated module (the real BmStack.WriteHDL run natively at every check, for MemType x Depth x senders x receivers x "
